@@ -115,6 +115,13 @@ def volatile_form(rng, inner, kind, array=False):
     # (range clause only)
     if rng.chance(.45):
         return ['f', 'RANDBETWEEN', ['n', 0], ['n', BIG]]
+    if rng.chance(.25):
+        # bounds near the end of the exactly representable integers with a
+        # narrow span: sums of bound and draw round there
+        lo = rng.pick([4 * 10 ** 15, 2 ** 52, 2 ** 53 - 4, -4 * 10 ** 15 - 2,
+                       9 * 10 ** 15])
+        return ['f', 'RANDBETWEEN', ['n', lo],
+                ['n', lo + rng.pick([1, 1, 2, 3])]]
     if rng.chance(.5):
         lo = rng.randrange(0, 5)
         return ['f', 'RANDBETWEEN', ['n', lo],
@@ -763,7 +770,8 @@ def judge_rand(world, exe, i, c, got, prev, fail, stats, j):
                 j, exe.kind, lo, hi, flat[0]), cell=i, exe=j, kind=exe.kind,
                  fn='RANDBETWEEN')
     # C13.fresh.rand: injective forms differ between consecutive evaluations
-    small = any(x[1] == 'RANDBETWEEN' and x[3][1] < BIG for x in rand_sites(f))
+    small = any(x[1] == 'RANDBETWEEN' and x[3][1] - x[2][1] < BIG
+                for x in rand_sites(f))
     if prev is not None and not small:
         before = prev.get('c%d' % i)
         # (an error value - e.g. an operand that is #NUM! - hides the site:
